@@ -132,8 +132,8 @@ theorem new_forward {cfg : Cfg} (hleg : cfg.legacy = false)
                                           classTrie := updateClassTrie s.classTrie b } with
              hStorage := Map.setAll s.hStorage (b.diff.storage.map (fun e => ((e.1, b.number), e.2))),
              hNonce := Map.setAll s.hNonce (b.diff.nonces.map (fun e => ((e.1, b.number), e.2))),
-             hClass := Map.setAll (Map.setAll s.hClass (b.diff.replaced.map (fun e => ((e.1, b.number), e.2))))
-                        (b.diff.deployed.map (fun e => ((e.1, b.number), e.2))) } := by
+             hClass := Map.setAll (Map.setAll s.hClass (b.diff.deployed.map (fun e => ((e.1, b.number), e.2))))
+                        (b.diff.replaced.map (fun e => ((e.1, b.number), e.2))) } := by
   unfold updateState at h
   by_cases hro : rootOf b.ver s = b.oldRoot
   · simp only [hro, ne_eq, not_true_eq_false, if_false, bind, Except.bind, pure, Except.pure] at h
